@@ -108,7 +108,16 @@ func init() {
 			wg.Wait()
 			return fmt.Sprintf("dups=%d bad=%d panics=%d", dups, bad, panics)
 		}
-		m, opts := cidMsg(a[0], a[1])
+		st := a[1]
+		preEncode := strings.HasPrefix(st, "e")
+		st = strings.TrimPrefix(st, "e")
+		m, opts := cidMsg(a[0], st)
+		if preEncode {
+			// the message is encoded (both paths) before it gets its id: the later encodings must still carry the id
+			_, _ = m.(msgp.Marshaler).MarshalMsg(nil)
+			var pre bytes.Buffer
+			_ = msgp.Encode(&pre, m)
+		}
 		id1, err := m.Chunk()
 		if err != nil {
 			return "err"
@@ -133,7 +142,16 @@ func init() {
 			if st == "P" {
 				st = "P" + hx(genChunkID(r))
 			}
+			if r.Bool() {
+				st = "e" + st
+			}
 			o.emit("C12", "CID", kinds[r.Intn(4)], st)
+		}
+		// seed-independent: every kind x every option state, encoded before the id is asked for
+		for _, k := range kinds {
+			for _, st := range []string{"eN", "eE", "eS", "eP" + hx([]byte("AAAAAAAAAAAAAAAAAAAAAA=="))} {
+				o.emit("C12", "CID", k, st)
+			}
 		}
 		g, per := 16, 2000
 		if tier == "thorough" {
